@@ -26,7 +26,7 @@ func (r *runner) runBurst(steps []Step) {
 	}
 	ci := steps[0].Conn
 	mc := r.m.conn(ci)
-	if mc.Gone || c.Ended() || c.sentFIN {
+	if mc.Gone || c.Ended() || c.sentFIN || r.m.Tainted[ci] || mc.Session == nil {
 		r.res.Skipped += len(steps)
 		return
 	}
@@ -376,7 +376,7 @@ func (r *runner) runBlock(steps []Step) {
 			return
 		}
 		mc := r.m.conn(st.Conn)
-		if mc.Gone || c.Ended() || c.sentFIN {
+		if mc.Gone || c.Ended() || c.sentFIN || (r.m.Tainted[st.Conn] && st.Op == "join") {
 			r.res.Skipped++
 			continue
 		}
@@ -791,6 +791,11 @@ func (r *runner) annotateBlock(kinds []string, reqs []*blockReq, note string) {
 					all = false
 				}
 			}
+			for _, k := range v.Keys {
+				if r.doubleKeys[k] {
+					all = false // two adds of one key both succeeded: not the relay-order window
+				}
+			}
 			if all {
 				// the known change-then-relay window: every entry that differs was changed by two
 				// connections in this very block
@@ -1016,6 +1021,10 @@ func (r *runner) doubleSuccess(reqs []*blockReq, kinds []string) {
 	}
 	for k, who := range adds {
 		if len(who) > 1 {
+			if r.doubleKeys == nil {
+				r.doubleKeys = map[string]bool{}
+			}
+			r.doubleKeys[fmt.Sprintf("comp:%v", k)] = true
 			d := fmt.Sprintf("concurrent block %v: component %v was added successfully by %v at the same time (only once per (type, entity))", kinds, k, who)
 			r.v("C12", "add-outcome", "%s", d)
 			r.v("C09", "block-double-success", "%s", d)
